@@ -7,9 +7,14 @@ X  the real get_reg_changes (both modes) vs Model/RegChanges.v on generated inst
    with an operation (all register choices incl. the same register as source and destination, immediates), instructions
    without operation, memory operands with pre-/post-index write-back, lines without mnemonic.  The model executes the
    statement list of the REGENERATED table, so a wrong translation shows up here as well.
-O  independent oracle: a tiny concrete interpreter (architectural registers with 32/64-bit aliasing) executes the
-   instruction text on random register files; every reported change must be the effect, every register that is not
-   reported (and does not alias a reported one) must be unchanged.
+O  independent oracle: a tiny concrete interpreter (architectural registers with 64/32/16/8-bit views, zero-extension of
+   32-bit writes, wrap-around) executes the instruction text on random register files; every reported change must be
+   the effect modulo the register's width, and every FULL-WIDTH register that is not reported must be unchanged (KernelDG
+   treats an absent register as unchanged).
+S  sub-register rule (1eb913c): the full-width names the parser helper get_full_width_reg_name gives for the destination
+   registers are an INPUT of the model (`fulls`; [] on a tree without the helper) and are compared with independent
+   register tables; a narrow write whose full-width register is not reported is the finding
+   store-load-edge-spurious:subregister-write.
 """
 import os
 import re
@@ -588,7 +593,9 @@ def translate(ctx):
 def run(ctx):
     ctx.trusted += ["hand model Model/RegChanges.v of ISASemantics.get_reg_changes, tied by exact correspondence of both returned dicts / raised exception classes",
                     "architectural semantics arch_effect (Proofs/RegChanges.v): registers hold unbounded integers, identified by prefix+name "
-                    "(no sub-register aliasing, no wrap-around); the Python interpreter of the oracle has 32/64-bit aliasing and wrap-around",
+                    "in the composition with Proofs/MemDep.v; the Alias section (fam/width/full_of arbitrary) and the Python interpreter of the oracle "
+                    "have sub-register views and wrap-around",
+                    "parser.get_full_width_reg_name is an input of the model (compared with independent x86/AArch64 register tables on every generated destination)",
                     "translator tools/gen_regchg.py (fail closed; its output is executed by the model in the correspondence)"]
     ctx.assumptions += ["immediate operand values reaching get_reg_changes are Python ints (or None)",
                         "the base of a pre-/post-indexed access is not also a transfer register of the same instruction (architecturally unpredictable)"]
